@@ -431,7 +431,8 @@ def array_io_cells(tier, parts):
     else:
         # M = 2, 3 were measured: single obligation groups (postconditions, loop-invariant step) exceed 25 min each, so the
         # thorough tier adds the other scalar type and the other build flavour at M = 1 only (stated in the evidence)
-        rcombos = [(1, "float", "debug"), (1, "float", "ndebug"), (1, "double", "debug"), (1, "double", "ndebug")]
+        # (1, float, debug) was measured too: one obligation group runs > 20 min; not in the registered tiers
+        rcombos = [(1, "float", "ndebug"), (1, "double", "debug"), (1, "double", "ndebug")]
         wcombos = [(1, "float"), (1, "double")]
     if "read" in parts:
         for m, t, fl in rcombos:
